@@ -10,6 +10,7 @@ import (
 	"math"
 	"sort"
 	"strconv"
+	"strings"
 	"time"
 
 	"github.com/blevesearch/bleve/v2"
@@ -78,13 +79,48 @@ type In struct {
 
 // ---------------------------------------------------------------- Coq printing
 
-// bz prints a byte string compactly as (bz len 0x<hex>) (decoded by TopNCorr.bz); parsing one
-// numeral is much cheaper for coqc than a list of small ones.
-func bz(b []byte) cf.T {
+// pool interns the numerals of one case as let-bound names: coqc spends ~0.3 ms per numeral, and
+// scores, doc values and ids repeat many times inside a case. A byte string is written as ONE
+// numeral, (bs 0x01<hex>) (decoded by TopNCorr.bs).
+type pool struct {
+	names map[string]string
+	defs  []string
+}
+
+func newPool() *pool { return &pool{names: map[string]string{}} }
+
+func (p *pool) intern(def string, prefix string) cf.T {
+	if n, ok := p.names[def]; ok {
+		return cf.T(n)
+	}
+	n := fmt.Sprintf("%s%d", prefix, len(p.defs))
+	p.names[def] = n
+	p.defs = append(p.defs, "let "+n+" := "+def+" in ")
+	return cf.T(n)
+}
+
+func (p *pool) bz(b []byte) cf.T {
 	if len(b) == 0 {
 		return "(@nil Z)"
 	}
-	return cf.T(fmt.Sprintf("(bz %d%%nat 0x%x)", len(b), b))
+	return p.intern(fmt.Sprintf("bs 0x01%x", b), "b")
+}
+func (p *pool) bzs(s string) cf.T { return p.bz([]byte(s)) }
+func (p *pool) hx(u uint64) cf.T  { return p.intern(fmt.Sprintf("0x%x", u), "z") }
+
+// wrap puts the let-bindings in front of the case term
+func (p *pool) wrap(body cf.T) cf.T {
+	if len(p.defs) == 0 {
+		return body
+	}
+	var sb strings.Builder
+	sb.WriteString("(")
+	for _, d := range p.defs {
+		sb.WriteString(d)
+	}
+	sb.WriteString(string(body))
+	sb.WriteString(")")
+	return cf.T(sb.String())
 }
 
 // lst prints a list whose element type is named when it is empty: an untyped [] costs coqc a
@@ -95,7 +131,6 @@ func lst[A any](typ string, xs []A, f func(A) cf.T) cf.T {
 	}
 	return cf.ListOf(xs, f)
 }
-func bzs(s string) cf.T { return bz([]byte(s)) }
 
 func slotT(s Slot) cf.T {
 	var k cf.T
@@ -112,22 +147,20 @@ func slotT(s Slot) cf.T {
 
 func sortT(so []Slot) cf.T { return lst("skey", so, slotT) }
 
-func afterT(a []AfterSlot, so []Slot) cf.T {
+func afterT(p *pool, a []AfterSlot, so []Slot) cf.T {
 	var sc uint64
 	keys := make([]cf.T, len(a))
 	for i, s := range a {
-		keys[i] = bz(s.Key)
+		keys[i] = p.bz(s.Key)
 		if so[i].Kind == "score" {
 			sc = s.Score
 		}
 	}
-	return cf.App("Build_after_doc", lst("bytes", keys, func(t cf.T) cf.T { return t }), hx(sc))
+	return cf.App("Build_after_doc", lst("bytes", keys, func(t cf.T) cf.T { return t }), p.hx(sc))
 }
 
-func hx(u uint64) cf.T { return cf.T(fmt.Sprintf("0x%x", u)) }
-
-func obsT(ids []string, total uint64, max float64) cf.T {
-	return cf.App("Build_observed", lst("bytes", ids, bzs), hx(total), hx(math.Float64bits(max)))
+func obsT(p *pool, ids []string, total uint64, max float64) cf.T {
+	return cf.App("Build_observed", lst("bytes", ids, p.bzs), p.hx(total), p.hx(math.Float64bits(max)))
 }
 
 // ---------------------------------------------------------------- sort construction
@@ -523,15 +556,16 @@ func execColl(in In) vh.Result {
 	for _, h := range coll.Results() {
 		ids = append(ids, h.ID)
 	}
+	p := newPool()
 	after := cf.None
 	skip := in.Skip
 	if in.After != nil {
-		after = cf.Some(afterT(in.After, in.Sort))
+		after = cf.Some(afterT(p, in.After, in.Sort))
 		skip = 0
 	}
 	msT := lst("cmatch", in.Matches, func(m Match) cf.T {
-		return cf.App("Build_cmatch", bzs(m.ID), hx(m.Score),
-			lst("(list bytes)", m.Terms, func(ts [][]byte) cf.T { return lst("bytes", ts, bz) }))
+		return cf.App("Build_cmatch", p.bzs(m.ID), p.hx(m.Score),
+			lst("(list bytes)", m.Terms, func(ts [][]byte) cf.T { return lst("bytes", ts, p.bz) }))
 	})
 	n := len(in.Matches)
 	store := "slice"
@@ -552,8 +586,8 @@ func execColl(in In) vh.Result {
 		hist = append(hist, "coll:beyond-check-done-every")
 	}
 	return vh.Result{
-		Term: cf.App("CColl", sortT(in.Sort), cf.Nat(in.Size), cf.Nat(skip), after, msT,
-			obsT(ids, coll.Total(), coll.MaxScore())),
+		Term: p.wrap(cf.App("CColl", sortT(in.Sort), cf.Nat(in.Size), cf.Nat(skip), after, msT,
+			obsT(p, ids, coll.Total(), coll.MaxScore()))),
 		Nontrivial: n > in.Size+skip && len(ids) > 0, Hist: hist,
 	}
 }
@@ -666,11 +700,12 @@ func execAPI(in In) vh.Result {
 			return vh.Result{Skip: true}
 		}
 	}
+	p := newPool()
 	arrival := append(search.DocumentMatchCollection{}, full.hits...)
 	sort.SliceStable(arrival, func(a, b int) bool { return arrival[a].HitNumber < arrival[b].HitNumber })
 	msT := lst("amatch", arrival, func(h *search.DocumentMatch) cf.T {
-		return cf.App("Build_amatch", hx(h.HitNumber), bzs(h.ID), hx(math.Float64bits(h.Score)),
-			lst("bytes", h.Sort, bzs))
+		return cf.App("Build_amatch", p.hx(h.HitNumber), p.bzs(h.ID), p.hx(math.Float64bits(h.Score)),
+			lst("bytes", h.Sort, p.bzs))
 	})
 	// the values a client passes to continue from hit h, and what the sentinel then carries
 	anchor := func(h *search.DocumentMatch) ([]string, cf.T, bool) {
@@ -678,12 +713,12 @@ func execAPI(in In) vh.Result {
 		keys := make([]cf.T, len(in.Sort))
 		var sc uint64
 		for x, s := range in.Sort {
-			keys[x] = bzs(h.Sort[x])
+			keys[x] = p.bzs(h.Sort[x])
 			switch {
 			case s.Kind == "score":
 				args[x] = strconv.FormatFloat(h.Score, 'g', -1, 64)
 				sc = math.Float64bits(h.Score)
-				keys[x] = bzs(args[x])
+				keys[x] = p.bzs(args[x])
 			case s.Kind == "field" && (s.Type == 2 || s.Type == 3):
 				args[x] = h.DecodedSort[x]
 				if h.Sort[x] == search.HighTerm || h.Sort[x] == search.LowTerm {
@@ -693,7 +728,7 @@ func execAPI(in In) vh.Result {
 				args[x] = h.Sort[x]
 			}
 		}
-		return args, cf.App("Build_after_doc", lst("bytes", keys, func(t cf.T) cf.T { return t }), hx(sc)), true
+		return args, cf.App("Build_after_doc", lst("bytes", keys, func(t cf.T) cf.T { return t }), p.hx(sc)), true
 	}
 	var probes []cf.T
 	nAfter, nBefore, nFrom := 0, 0, 0
@@ -702,7 +737,7 @@ func execAPI(in In) vh.Result {
 		for _, h := range o.hits {
 			ids = append(ids, h.ID)
 		}
-		probes = append(probes, cf.App("Build_probe", cf.Nat(size), req, obsT(ids, o.total, o.max)))
+		probes = append(probes, cf.App("Build_probe", cf.Nat(size), req, obsT(p, ids, o.total, o.max)))
 	}
 	from := func(size, from int) *obs {
 		o := run(size, from, nil, nil)
@@ -785,7 +820,7 @@ func execAPI(in In) vh.Result {
 		hist = append(hist, "api:probe-before")
 	}
 	return vh.Result{
-		Term:       cf.App("CApi", sortT(in.Sort), msT, lst("probe", probes, func(t cf.T) cf.T { return t })),
+		Term:       p.wrap(cf.App("CApi", sortT(in.Sort), msT, lst("probe", probes, func(t cf.T) cf.T { return t }))),
 		Nontrivial: n >= 3 && nAfter+nBefore > 0, Hist: hist,
 	}
 }
